@@ -379,7 +379,17 @@ def run_coq_cases(prop_id, imports, terms, shard=200, jobs=16, timeout=900, tag=
     `imports` is the Coq header (Require lines).  Output order == input order.
     A term that fails to evaluate aborts its shard: the error is raised (model bug).
     """
-    wd = os.path.join(WORK, prop_id)
+    # a directory private to this process: two runs of one check in the same tree (quick and thorough,
+    # a replay next to a run) must not clobber each other's cases files; stale directories of dead
+    # processes are removed
+    top = os.path.join(WORK, prop_id)
+    os.makedirs(top, exist_ok=True)
+    for d in os.listdir(top):
+        m = re.match(r"^p(\d+)$", d)
+        if m and not os.path.exists("/proc/%s" % m.group(1)):
+            import shutil
+            shutil.rmtree(os.path.join(top, d), ignore_errors=True)
+    wd = os.path.join(top, "p%d" % os.getpid())
     os.makedirs(wd, exist_ok=True)
     ensure_imports_built(imports)
     for f in os.listdir(wd):
